@@ -118,3 +118,13 @@ where
     }
     Ok(())
 }
+
+/// Verification hook: run the crate-private request loop on a serial stream.
+#[cfg(feature = "verif-hooks")]
+pub async fn verif_process<S>(serial: SerialStream, service: S) -> io::Result<()>
+where
+    S: Service + Send + Sync + 'static,
+    S::Request: From<RequestAdu<'static>> + Send,
+{
+    process(Framed::new(serial, ServerCodec::default()), service).await
+}
